@@ -157,6 +157,15 @@ class CCodeMapper(LokiStringifyMapper):
                 return f'fmod({parameters[0]}, {parameters[1]})'
             return f'({parameters[0]})%({parameters[1]})'
 
+        if expr.function.name.lower() in ('fmin', 'fmax') and len(expr.parameters) > 2 and not expr.kw_parameters:
+            # Fortran's MIN/MAX are variadic, C's fmin/fmax are binary: nest the calls pairwise from the left
+            name = expr.function.name
+            parameters = [self.rec(param, PREC_NONE, *args, **kwargs) for param in expr.parameters]
+            result = parameters[0]
+            for parameter in parameters[1:]:
+                result = f'{name}({result}, {parameter})'
+            return result
+
         if expr.function.name.lower() == 'present':
             return self.format('true /*ATTENTION: present({%s})*/', expr.parameters[0].name)
 
